@@ -39,6 +39,7 @@ def main(argv):
     root = core.DEFAULT_REPO
     prop = None
     replay = None
+    scratch = False
     i = 0
     while i < len(args):
         a = args[i]
@@ -51,6 +52,10 @@ def main(argv):
         elif a == "--replay":
             replay = args[i + 1]
             i += 2
+        elif a == "--scratch":
+            # analysing a scratch copy: do not touch the committed evidence / replay files
+            scratch = True
+            i += 1
         else:
             prop = a
             i += 1
@@ -95,7 +100,8 @@ def main(argv):
             print("VIOLATION property={} replay={}".format(prop, replay))
             return 1
         return 0 if not errors else 2
-    code = core.finish(rep, tier, t0, selftest=selftest, analysis_errors=errors)
+    code = core.finish(rep, tier, t0, selftest=selftest, analysis_errors=errors,
+                       write_evidence=not scratch, write_replay=not scratch)
     return code
 
 
